@@ -13,7 +13,7 @@ PROPERTY_META = {
                        "config.load, FontConfig(...) keywords) coincide and are wired field-for-field; flag defaults are the "
                        "None sentinel; _pop_flag evaluates flag > file > default on all four set/unset combinations; csv "
                        "writer/reader dialect keywords agree; glyphmap column order and radix agree; parts JSON keys written = "
-                       "keys read. Does NOT decide value-level round trips (float formatting of Affine2D.tostring, shell "
+                       "keys read; config.write drops nothing but None, writes axes/masters in the order load keeps, and targets the file the edges consume on every run; every returned glyph name passes the first-character test. Does NOT decide value-level round trips (float formatting of Affine2D.tostring, shell "
                        "splitting of response files, the file-name regex).",
         "declined": "float round-trip of transform strings; ninja response-file quoting; from_filename regex on arbitrary names",
         "assumptions": _ASSUME,
@@ -27,7 +27,7 @@ def _stub(pid, text, declined=""):
 
 _stub("C20", "Decides structural clauses of C20: configuration schema agreement (R20a = R10a), every option has a consumer "
              "reaching its documented sink, the colour-format registry is total, shared intermediates are keyed by everything "
-             "that parametrises them, per-configuration file namespace is injective, an intermediate's path depends on every argument of its dest function, the resolved configuration is re-written on every invocation. Does NOT decide that ufo2ft writes the "
+             "that parametrises them, per-configuration file namespace is injective, an intermediate's path depends on every argument of its dest function, the resolved configuration is re-written on every invocation, same-named sources get a per-source slot number, the outline flavour follows the output suffix. Does NOT decide that ufo2ft writes the "
              "info fields into the named binary tables.",
       "binary table contents (ufo2ft/fontTools)")
 
@@ -36,7 +36,7 @@ _stub("C11", "Decides structural clauses of C11: the repository's (type, format)
              "rule, every coverage is paired with its own coverage-indexed array, attribute paths resolve in otData, glyph-sorted "
              "inner lists have a ReorderList); the traversal visits all four containers and every subtable after setGlyphOrder; "
              "the font is fully loaded before the order changes in the callee and at both callers; argument validation raises "
-             "before mutation. Does NOT decide the permutation arithmetic of _sort_by_gid or tables outside the four containers.",
+             "before mutation; no loop of the reordering pass can stop early. Does NOT decide the permutation arithmetic of _sort_by_gid or tables outside the four containers.",
       "_sort_by_gid arithmetic (unit-tested); cmap/hmtx/glyf/COLR which fontTools keys by glyph name")
 
 _stub("C16", "Decides structural clauses of C16: in paint.transformed every specialised paint is dominated by the range predicate of "
@@ -54,7 +54,7 @@ _stub("C09", "Decides structural clauses of C09 on a static model of the ninja g
              "path-valued variable is a declared input; no rule sets restat/generator; the glyphmap edge lists the per-source "
              "intermediates of each format family; resolved configs and build.ninja are rewritten unconditionally before ninja runs; "
              "ninja runs with check=True, pngquant returns its child's status, no except handler swallows an error outside a reviewed "
-             "table, no step exits 0 explicitly; every font-writing main writes the font as its last action. Does NOT decide "
+             "table, no step exits 0 explicitly; every font-writing main writes the font as its last action; no control flow depends on what files an earlier invocation left behind (exists/stat/mtime/size probes). Does NOT decide "
              "convergence over histories, ninja's own dirtiness logic, or behaviour at kill points.",
       "convergence over edit/crash histories; ninja log/mtime semantics; partial files left by killed steps")
 
@@ -62,7 +62,7 @@ _stub("C17", "Decides structural clauses of C17: a uniqueness check keyed on the
              "(seen-set / len(set) / Counter idioms, keyed on that attribute alone) raises on the path write_font.main -> ColorGlyph.create; each raise site the "
              "property relies on (bad colour, unknown spreadMethod, palette conflict, parse failure, missing file, oversize bitmap, "
              "master mismatch in either direction, missing viewBox) exists, is reachable, is not guarded by a constant and is not caught without re-raise "
-             "on any resolved call path; failures propagate to the exit status (R09d) and font files are written last (R09e). Does "
+             "on any resolved call path; the colour parser converts whole tokens (no partial-match extraction); failures propagate to the exit status (R09d) and font files are written last (R09e). Does "
              "NOT decide that picosvg rejects every unsupported construct, nor what ninja does with the exit status.",
       "picosvg's own input validation; exit-status handling inside ninja")
 
@@ -80,7 +80,7 @@ _stub("C18", "Decides structural clauses of C18: each master's UFO edge is built
              "master's glyphmap and config file, with sources redirected to the build's picosvgs, one edge per master, and the "
              "variable-font edge depends on every UFO; in the designspace assembly the UFO, style name, source name and location of a "
              "source all derive from the same loop binder, location keys go through axisTag -> name, axis minimum/maximum aggregate "
-             "positions filtered on the same tag, default comes from the axis; positions and defaults are not truncated or rounded on loading; validation rejects bitmap / OT-SVG multi-master configs "
+             "positions filtered on the same tag, default comes from the axis; positions and defaults are not truncated or rounded on loading; _write only serialises (a master UFO is what the static build would compile); same-named sources of different masters get distinct intermediates; validation rejects bitmap / OT-SVG multi-master configs "
              "and a missing default master. Does NOT decide interpolation, gvar/HVAR/VarStore content or variable clip boxes (ufo2ft).",
       "interpolation and all variation data (ufo2ft/fontTools.varLib)")
 
@@ -89,7 +89,7 @@ _stub("C08", "Decides structural clauses of C08 with an order-taint analysis ove
              "any/all, util.only) or by loops whose bodies commute; every other consumption is a finding unless it is in a reviewed "
              "exception table keyed by function and construct. Also: no clock/random/pid/id()/hash()/environment reads (with a "
              "positive fixture), source paths and build locations flow only to open/parse, sort keys and messages, the first-seen "
-             "disambiguation of intermediate names is fed from the sorted source list, and the hash-ordered parts file is never read "
+             "disambiguation of intermediate names is fed from the sorted source list, workers keep the driver's source order (no re-sorting of build-dir-relative spellings), and the hash-ordered parts file is never read "
              "by the font writer. Does NOT decide ninja's scheduler, fontTools' SOURCE_DATE_EPOCH handling or external tools.",
       "ninja scheduling; fontTools timestamps; picosvg/resvg/pngquant determinism; sort ties under non-injective keys")
 
@@ -109,7 +109,7 @@ _stub("C02", "Decides structural clauses of C02: coordinate-space typing of svg.
              "the donor's frame and to a <path> in the target's; a pre-applied gradient transform is not applied twice); the user "
              "transform is bracketed by the y flip in map_viewbox_to_otsvg_space; <use>/id pairing on every path; attribute migration "
              "only when all uses agree; glyph ids read after the reshuffle come from the renumbered mapping and one group list drives "
-             "numbering and emission; picosvg/compressed wiring. Does NOT decide a renderer's interpretation of <use x y transform>, "
+             "numbering and emission over all groups; the untouched path deletes only width/height/viewBox/enable-background; picosvg/compressed wiring. Does NOT decide a renderer's interpretation of <use x y transform>, "
              "3-digit rounding or the Safari nudge's visual effect.",
       "renderer semantics of <use>; rounding to 3 digits; involutory-matrix nudge")
 
@@ -133,14 +133,14 @@ _stub("C13", "Decides structural clauses of C13: coordinate-space typing of colr
              "over ot_paint.Format is exhaustive (every PaintFormat member is handled, routed to a class with its own gettransform, or "
              "raises) and unsupported composites warn; Paint.from_ot's reflection contract holds against otData for every non-variable "
              "transform format incl. the (xx,yx,xy,yy,dx,dy) converter order; colour mapping (0xFFFF -> currentColor, palette index only "
-             "for multi-palette fonts, alpha product) and COLRv0 layer order. Does NOT decide picture equality or curve conversion.",
+             "for multi-palette fonts, alpha product) and COLRv0 layer order; re-framing a gradient maps every geometric field. Does NOT decide picture equality or curve conversion.",
       "rendered-picture equality; SVGPathPen quadratic/cubic conversion; angle conventions of rotate/skew in picosvg")
 
 _stub("C03", "Decides structural clauses of C03: every PaintGlyph context (and only those) yields exactly one COLRv0 layer / glyf "
              "component; the component or transformed composite carries the transform and glyph of the same traversal context and a "
              "composite is created exactly when that transform is not the identity; the v0 palette keeps alpha and layers look their "
              "colour up unmodified; base-glyph extents are drawn for v0 with each glyph's own bounds; the single-component flattening "
-             "requires an unshared component and carries the codepoint over. Does NOT decide picture equality or quantisation.",
+             "requires an unshared component and carries the codepoint over; ufo2ft is not asked to remove overlaps (open extents contour). Does NOT decide picture equality or quantisation.",
       "rendered-picture equality; outline quantisation")
 _stub("C04", "Decides structural clauses of C04: all sites naming glyphs from codepoints call glyph.glyph_name; the length predicates "
              "at the cmap / ligature / blank-glyph sites, evaluated over sequence lengths, put length 1 in cmap and every length >= 2 "
@@ -165,13 +165,13 @@ _stub("C07", "Decides the few structural necessary conditions of C07: post forma
 _stub("C14", "Decides structural clauses of C14: dimension typing (px, fu, px/em) of every arithmetic expression in the bitmap "
              "metrics; the name, metrics and bytes of each sbix/CBDT record derive from the same glyph and the bytes are the PNG "
              "unchanged; oversize bitmaps are rejected before strikes are built and the 8-bit assertions dominate the metrics' return; "
-             "ppem comes from the single bitmap height of the strike. Does NOT decide the pixel-exact placement bounds (one/two px) or "
+             "ppem comes from the single bitmap height of the strike; the pixel advance is max(configured width, bitmap width) on every path like the hmtx advance. Does NOT decide the pixel-exact placement bounds (one/two px) or "
              "fontTools' packing.",
       "the +-1/+-2 pixel placement bounds; fontTools' CBDT/sbix packing")
 _stub("C15", "Decides structural clauses of C15: the normalisation applied when the palette is built equals the one applied at every "
              "look-up (v0: unmodified, v1: opaque with alpha carried by the paint/stop; opaque() changes alpha only), the same list is written to CPAL; the "
              "foreground colour is excluded by the predicate index_from short-circuits on (0xFFFF); conflicting explicit indices raise, "
              "the palette is never empty, the slot count and fill discipline place indexed colours at their own index and assert every "
-             "colour was placed; iteration is over a sorted sequence. Does NOT decide the slot-filling arithmetic for all colour sets "
+             "colour was placed; iteration is over a sorted sequence; the alpha handed to Color.fromstring reaches every returned colour and colours rebuilt from components keep their palette index. Does NOT decide the slot-filling arithmetic for all colour sets "
              "(a run-time fact).",
       "exhaustive correctness of slot assignment over all colour multisets")
